@@ -6,6 +6,7 @@ import (
 
 	"verif/explore"
 	"verif/grammar"
+	"verif/oracle"
 	"verif/spaces"
 )
 
@@ -80,6 +81,72 @@ func editSpace(r *explore.Run, seedBase int, body func(c *explore.Ctx, e *Entry,
 			}
 			if isStatementKind(s.Kind) {
 				body(c, EntryByName("ParseStatement"), text)
+				body(c, EntryByName("ParseStatements"), text)
+			}
+		})
+}
+
+// corpusEditSpace: token deletions, adjacent swaps and truncations of every corpus file
+// (thorough: also replacement/insertion of every edit token).
+func corpusEditSpace(r *explore.Run, body func(c *explore.Ctx, e *Entry, s string)) {
+	files := loadCorpus()
+	if len(files) == 0 {
+		return
+	}
+	type tf struct {
+		f    corpusFile
+		toks []string
+	}
+	var fs []tf
+	for _, f := range files {
+		toks, err := oracle.ImplLex(f.Text)
+		if err != nil || len(toks) == 0 || len(toks) > 600 {
+			continue
+		}
+		var ts []string
+		for _, t := range toks {
+			ts = append(ts, t.Raw)
+		}
+		fs = append(fs, tf{f, ts})
+	}
+	A := EditAlphabet
+	kinds := 3
+	if r.Tier == "thorough" {
+		kinds = 5
+	}
+	r.Explore(explore.Options{Space: "S5/corpus-edits", MaxDev: -1, SplitLen: 2,
+		Bound: fmt.Sprintf("%d corpus files (<=600 tokens) x every token deletion, adjacent swap and truncation (thorough: + replace/insert each of %d edit tokens)", len(fs), len(A))},
+		func(c *explore.Ctx) {
+			f := fs[c.ChooseFree(len(fs))]
+			toks, n := f.toks, len(f.toks)
+			kind := c.ChooseFree(kinds)
+			var t []string
+			switch kind {
+			case 0:
+				i := c.ChooseFree(n)
+				t = append(append([]string{}, toks[:i]...), toks[i+1:]...)
+			case 1:
+				if n < 2 {
+					return
+				}
+				i := c.ChooseFree(n - 1)
+				t = append([]string{}, toks...)
+				t[i], t[i+1] = t[i+1], t[i]
+			case 2:
+				t = toks[:c.ChooseFree(n)]
+			case 3:
+				i := c.ChooseFree(n)
+				t = append([]string{}, toks...)
+				t[i] = A[c.ChooseFree(len(A))]
+			case 4:
+				i := c.ChooseFree(n + 1)
+				t = append(append(append([]string{}, toks[:i]...), A[c.ChooseFree(len(A))]), toks[i:]...)
+			}
+			text := strings.Join(t, " ")
+			c.Input(text)
+			c.Sample(f.f.Name + ": " + text)
+			body(c, EntryByName(f.f.Entry), text)
+			if f.f.Entry != "ParseExpr" {
 				body(c, EntryByName("ParseStatements"), text)
 			}
 		})
